@@ -71,13 +71,12 @@ theorem gate_rep (d k : Bool) (p : Finding → Bool) : ∀ (es : List Emit) (see
               · exact Or.inr ⟨e', List.mem_cons_of_mem _ h1, h2⟩
 theorem step_cases (o : Opts) (g : Bool) (s : LState) (f : Finding) (hs : o.safety = false) :
     (loggerStep o g s f = s) ∨
-    (∃ sn, loggerStep o g s f = { s with seen := sn }) ∨
+    (∃ sn sp, loggerStep o g s f = { s with seen := sn, seenSup := sp }) ∨
     (f.internal = true ∧ loggerStep o g s f = { s with out := s.out ++ [⟨f, false⟩] }) ∨
     (f.internal = false ∧ f.emptyText = false ∧ (g = true → f.nomsgGlobal = false) ∧
-      ∃ sn, loggerStep o g s f = { exit := s.exit || (!f.nofail && !f.nomsgGlobal), seen := sn, out := s.out ++ [⟨f, false⟩] }) := by
+      ∃ sn sp, loggerStep o g s f = { exit := s.exit || (!f.nofail && !f.nomsgGlobal), seen := sn, seenSup := sp, out := s.out ++ [⟨f, false⟩] }) := by
   unfold loggerStep
   simp only [hs, Bool.and_false, Bool.false_and, Bool.false_eq_true, if_false]
-  generalize hc : s.seen.contains f.key = c
   by_cases h1 : f.internal = true
   · simp [h1]
   · by_cases h2 : f.libSkip = true
@@ -88,7 +87,8 @@ theorem step_cases (o : Opts) (g : Bool) (s : LState) (f : Finding) (hs : o.safe
         have h2' : f.libSkip = false := by simpa using h2
         have h3' : f.emptyText = false := by simpa using h3
         simp only [h1', h2', h3', Bool.false_eq_true, if_false]
-        cases h6 : o.emitDuplicates <;> cases c <;> cases g <;> cases hng : f.nomsgGlobal <;> cases hnl : f.nomsgLocal <;> cases hnf : f.nofail <;> simp
+        by_cases hm : f.key ∈ s.seen <;> by_cases hm2 : f.key ∈ s.seenSup <;>
+          cases h6 : o.emitDuplicates <;> cases g <;> cases hng : f.nomsgGlobal <;> cases hnl : f.nomsgLocal <;> cases hnf : f.nofail <;> simp [hm, hm2]
 
 /-- what a forwarded, visible message guarantees about the logger that forwarded it -/
 def Good (g : Bool) (s : LState) : Prop :=
@@ -106,7 +106,7 @@ def From (s0 : LState) (fs : List Finding) (s : LState) : Prop :=
 
 theorem step_good (o : Opts) (g : Bool) (s : LState) (f : Finding) (hs : o.safety = false)
     (h : Good g s) : Good g (loggerStep o g s f) := by
-  rcases step_cases o g s f hs with h1 | ⟨sn, h1⟩ | ⟨hi, h1⟩ | ⟨hi, he, hg, sn, h1⟩ <;> rw [h1]
+  rcases step_cases o g s f hs with h1 | ⟨sn, sp, h1⟩ | ⟨hi, h1⟩ | ⟨hi, he, hg, sn, sp, h1⟩ <;> rw [h1]
   · exact h
   · exact h
   · intro e he hint
@@ -126,7 +126,7 @@ theorem step_good (o : Opts) (g : Bool) (s : LState) (f : Finding) (hs : o.safet
 
 theorem step_expl (o : Opts) (g b : Bool) (s : LState) (f : Finding) (hs : o.safety = false)
     (h : Expl b s) : Expl b (loggerStep o g s f) := by
-  rcases step_cases o g s f hs with h1 | ⟨sn, h1⟩ | ⟨hi, h1⟩ | ⟨hi, he, hg, sn, h1⟩ <;> rw [h1]
+  rcases step_cases o g s f hs with h1 | ⟨sn, sp, h1⟩ | ⟨hi, h1⟩ | ⟨hi, he, hg, sn, sp, h1⟩ <;> rw [h1]
   · exact h
   · exact h
   · intro hx
@@ -145,11 +145,11 @@ theorem step_expl (o : Opts) (g b : Bool) (s : LState) (f : Finding) (hs : o.saf
 
 theorem step_mono (o : Opts) (g : Bool) (s : LState) (f : Finding) (hs : o.safety = false) (h : s.exit = true) :
     (loggerStep o g s f).exit = true := by
-  rcases step_cases o g s f hs with h1 | ⟨sn, h1⟩ | ⟨hi, h1⟩ | ⟨hi, he, hg, sn, h1⟩ <;> rw [h1] <;> simp [h]
+  rcases step_cases o g s f hs with h1 | ⟨sn, sp, h1⟩ | ⟨hi, h1⟩ | ⟨hi, he, hg, sn, sp, h1⟩ <;> rw [h1] <;> simp [h]
 
 theorem step_out (o : Opts) (g : Bool) (s : LState) (f : Finding) (hs : o.safety = false) (e : Emit) :
     (e ∈ s.out → e ∈ (loggerStep o g s f).out) ∧ (e ∈ (loggerStep o g s f).out → e ∈ s.out ∨ e.f = f) := by
-  rcases step_cases o g s f hs with h1 | ⟨sn, h1⟩ | ⟨hi, h1⟩ | ⟨hi, he, hg, sn, h1⟩ <;> rw [h1]
+  rcases step_cases o g s f hs with h1 | ⟨sn, sp, h1⟩ | ⟨hi, h1⟩ | ⟨hi, he, hg, sn, sp, h1⟩ <;> rw [h1]
   · exact ⟨id, Or.inl⟩
   · exact ⟨id, Or.inl⟩
   · refine ⟨fun h => List.mem_append_left _ h, fun h => ?_⟩
